@@ -819,6 +819,9 @@ def run(ctx):
     # del_span and the area reads get their rectangle through Table.get_cells: a bound of 0 taken for "no bound" widens it to whole rows (rule shared with C19)
     from .c19 import r19l
     r19l(ctx)
+    # optimize_width measures a row by its last cell: a covered cell is a cell (rule shared with C01)
+    from .c01 import r01l
+    r01l(ctx)
 
 
 from ..selftest import Seed, unparse_seed  # noqa: E402
